@@ -17,9 +17,11 @@ The property is FALSE of the code as stated; the full statements stay visible (`
 * `LinearOnBox`   (layout resolution) : layout ∘ pattern is linear with value 0 at the origin on the iteration box.
                    Dropped: finding DC02a (offset / bias / unaligned tiles shift every stride) — `resolve_exact_fails`.
 * `BankContiguous`(conversion)        : the innermost relevant stride is the element width and `stride·bound ≥ 8`
-                   (no warning). Dropped: finding D29 — `d29_warned_fails`, `d29_noncontiguous_fails`.
-* `ExactDivision` (conversion)        : no `//` of the conversion had a remainder. Dropped: finding DC02b —
-                   `inexact_fails`.
+                   (no warning). Dropped: finding D29 (warning path) — `d29_warned_fails`. The silent half (stride ≠
+                   element width, `d29_noncontiguous_fails` on the inner function) is REPAIRED by fix FC02a: the code
+                   refuses it (`d29_noncontiguous_refused`), `toStridePatternEl_stream_partial` needs no such clause.
+* `ExactDivision` (conversion)        : no `//` of the conversion had a remainder. REPAIRED by fix FC02a (finding
+                   DC02b): now a theorem, `exactDivision_holds`; former witness refused: `inexact_refused`.
 * `NoBroadcast`   (conversion)        : the broadcast escape was not taken (hardware broadcast is not the documented
                    address generator). Dropped: `bcast_fails`.
 
@@ -234,14 +236,15 @@ theorem d29_noncontiguous_fails :
   refine ⟨_, rfl, ?_⟩
   decide +kernel
 
-/-- finding DC02b: xDMA writer (8 ports), `memref<32xi8>`: loops (16,1),(2,16). `16/8 = 2 < 8` ports, so the next
-    bound is divided: `2 // 4 = 0` — the pattern has upper bound 0 and streams nothing; the schedule holds 32 bytes. -/
-theorem inexact_fails :
-    ∃ r, toStridePattern [(16, 1), (2, 16)] [8] false = .ok r ∧ BankContiguous 1 [(16, 1), (2, 16)] r ∧
-      NoBroadcast r ∧ r.inexact = true ∧ r.pat = { ub := [0], ts := [64], ss := [8] } ∧
-      (hwStream [8] r.pat).flatten = [] ∧ ((schedStream 1 [(16, 1), (2, 16)] 1).flatten).length = 32 := by
-  refine ⟨_, rfl, ?_⟩
-  decide
+/-- finding DC02b, REPAIRED by fix FC02a: xDMA writer (8 ports), `memref<32xi8>`: loops (16,1),(2,16). `16/8 = 2 < 8`
+    ports, so the next bound would be divided `2 // 4 = 0` (the unrepaired code emitted `ub = [0]`: nothing streamed
+    where the schedule holds 32 bytes). The code now refuses the operand … -/
+theorem inexact_refused : toStridePattern [(16, 1), (2, 16)] [8] false = .error .runtimeError := by decide
+
+/-- … and in general the clause `ExactDivision` is no longer a hypothesis: it holds for every result of the conversion. -/
+theorem exactDivision_holds (it : List Loop) (dims : List Nat) (bc : Bool) (r : Res)
+    (h : toStridePattern it dims bc = .ok r) : ExactDivision r :=
+  toStridePattern_exact it dims bc r h
 
 /-- clause `NoBroadcast`: gemmx operand C with a broadcast row (loops n:(8,4), m:(8,0)): the escape keeps the spatial
     stride 8 for 8 ports (64 bytes) where the schedule only holds one row of 32 bytes, repeated. Under the documented
@@ -257,7 +260,7 @@ theorem bcast_fails :
 
 /-- full statement of the property for one operand on the generic path (all dimensions relevant): whenever both
     passes succeed, the hardware byte sequence is the sequence of the bytes of the elements at their LAYOUT addresses,
-    in schedule order. False of the code: `resolve_exact_fails`, `d29_*_fails`, `inexact_fails`. -/
+    in schedule order. False of the code: `resolve_exact_fails`, `d29_warned_fails`. -/
 def C02_statement : Prop :=
   ∀ (L : AExpr) (A : List (List Int)) (b : List Int) (bounds : List Nat) (dims : List Nat) (bc : Bool) (el : Nat)
     (s : List Int) (r : Res),
@@ -353,6 +356,29 @@ theorem xdma_add_second_input_fails :
   refine ⟨{ ub := [2], ts := [64], ss := [8] }, { ub := [2], ts := [16], ss := [8] },
     { ub := [2], ts := [64], ss := [8] }, _, by decide, rfl, ?_⟩
   decide
+
+/-! ## (4b) what fix FC02a moves from hypothesis to theorem -/
+
+/-- **toStridePatternEl_stream** (the conversion as the code does it now, with the contiguity guard): the only clauses
+    left are "no `< 8` warning" (finding D29, warning path — a documented assumption of the code: zero padding) and
+    `NoBroadcast`. That the innermost relevant stride is the element width (the silent half of the former D29) and
+    that no division lost anything (former DC02b) are established by the code itself. -/
+theorem toStridePatternEl_stream_partial (el : Nat) (it : List Loop) (dims : List Nat) (bc : Bool) (k : Nat) (r : Res)
+    (h : toStridePatternEl el it dims bc = .ok r) (hw : r.warned = false) (hnb : NoBroadcast r) :
+    (hwStream dims r.pat).flatten = (schedStream el it k).flatten := by
+  obtain ⟨h', hin⟩ := toStridePatternEl_inner el it dims bc r h hw
+  exact toStridePattern_stream_partial it dims bc el k r h' ⟨hin, hw⟩ (toStridePattern_exact it dims bc r h') hnb
+
+/-- the former silent witness of D29 (gemmx B `memref<16x8xi8>` row-major: innermost relevant stride 8, element
+    width 1) is refused now -/
+theorem d29_noncontiguous_refused :
+    toStridePatternEl 1 [(8, 8), (8, 1), (2, 64)] [8] false = .error .runtimeError := by decide
+
+/-- the warning path is unchanged (finding D29 stays open there): alu, i8, loops (4,1),(4,4) -/
+example : ∃ r, toStridePatternEl 1 [(4, 1), (4, 4)] [4] false = .ok r ∧ r.warned = true := ⟨_, rfl, rfl⟩
+
+example : ∃ r, toStridePatternEl 4 itC [8, 4] true = .ok r ∧ r.warned = false ∧ NoBroadcast r :=
+  ⟨_, rfl, by decide⟩
 
 /-! ## (5) accelerator customisation (`set_stride_patterns`): the data-carrying patterns survive -/
 
@@ -472,6 +498,8 @@ theorem simd_spatial_of_contiguous (rest : List Loop) (bc : Bool) (r : Res)
         | (nb, ns) :: r', h3 =>
           simp only [show ¬ (4 : Nat) = 8 by decide, show (4 : Nat) < 8 by decide, show ¬ (4 : Nat) = 0 by decide,
             show ¬ (8 % 4 ≠ 0) by decide, if_true, if_false] at h3
+          split at h3
+          · exact absurd h3 (by simp)
           split at h3
           · split at h3
             · simp only [Except.ok.injEq, Prod.mk.injEq] at h3
